@@ -404,6 +404,10 @@ class _OutKeysSelect:
             raise RuntimeError(
                 "_OutKeysSelect must be initialized before being called."
             )
+        if module.__dict__.get("_forward_skipped", False):
+            # set_skip_existing: the forward was skipped and returned its input untouched
+            module.__dict__["_forward_skipped"] = False
+            return tensordict_out
         # detect dispatch calls
         in_keys = module.in_keys
         if not tensordict_in and kwargs.get("tensordict") is not None:
